@@ -227,7 +227,7 @@ func schemaLemmas(prog *Program) []*lemmaQuery {
 	if prog.schema != nil {
 		detail = strings.Join(prog.schema.TypeProblems, "; ")
 	}
-	return []*lemmaQuery{structural("every column of CREATE_TABLE_STATEMENT is declared TEXT, BLOB or INTEGER (exact storage, no numeric affinity)", "internal/app/subsystems/aio/store/sqlite:CREATE_TABLE_STATEMENT", ok, detail)}
+	return []*lemmaQuery{structural("every column of CREATE_TABLE_STATEMENT is declared TEXT, BLOB or INTEGER with binary collation (exact storage and comparison)", "internal/app/subsystems/aio/store/sqlite:CREATE_TABLE_STATEMENT", ok, detail)}
 }
 
 // resetDefaultLemmas (C06): the stores delete their data on Stop only when Reset is configured, and the
@@ -286,6 +286,10 @@ func extraObligations(prog *Program, prop, tier string) []*lemmaQuery {
 	case "C01", "C02", "C03", "C04", "C05", "C07", "C08", "C09", "C10", "C16", "C17", "C20":
 		// every property about stored client data depends on columns storing exactly what is written
 		out0 = schemaLemmas(prog)
+		// ... and on the data still being there after a graceful stop with the default configuration
+		if prop != "C16" && prop != "C17" {
+			out0 = append(out0, resetDefaultLemmas(prog)...)
+		}
 	}
 	if prop == "C08" || prop == "C17" {
 		for _, be := range []string{"sqlite", "postgres"} {
